@@ -121,9 +121,10 @@ def prepare():
         _ASM["error"] = str(e)[-600:]
 
 
-def mods_of(cfg):
+def mods_of(cfg, report_scan=False):
+    """parsed modules of a configuration; the forbidden-construct hits of the text scan are reported by ir:<cfg>:constructs only"""
     ent = _PREP[cfg]
-    if ent["scan"]:
+    if ent["scan"] and (report_scan or ent["error"]):
         h = ent["scan"][0]
         raise Violation("construct:%s:%s" % (h["kind"], h["tu"]), "%s construct in %s line %d: %s (%d such lines in configuration %s)" % (
             h["kind"], h["tu"], h["line"], h["text"], len(ent["scan"]), cfg), {"config": cfg, "hits": ent["scan"][:20]})
@@ -136,7 +137,7 @@ def mods_of(cfg):
 # ir:<cfg>:constructs   (table look-up)
 # ==========================================================================================================================
 def ob_constructs(cfg):
-    mods = mods_of(cfg)
+    mods = mods_of(cfg, report_scan=True)
     cptrs = c_interface_pointers()
     seen = {}
     ctors = []
@@ -236,6 +237,18 @@ def ob_asm():
             "sample": "%d instructions, %d memory operands (%d written), %d Horn facts; %s" % (len(af.ins), af.mem_ops, af.mem_writes, h.nfacts, fmt_tab(tab))}
 
 
+def short(text):
+    """demangle and abbreviate the C++ names inside a message"""
+    names = sorted(set(re.findall(r"_Z[A-Za-z0-9_]+", text)), key=len, reverse=True)
+    if names:
+        dem = subprocess.run(["llvm-cxxfilt-14"], input="\n".join(names), capture_output=True, text=True).stdout.split("\n")
+        for n, d in zip(names, dem):
+            d = re.sub(r"\(.*\)( const)?$", "", d)
+            d = re.sub(r"<[^<>]*(<[^<>]*>[^<>]*)*>", "<>", d).replace("embedded_pairing::", "")
+            text = text.replace(n, d)
+    return text
+
+
 def describe(h, s, o):
     meta = h.site_meta[s]
     on = h.names["O"][o]
@@ -283,9 +296,11 @@ def ob_writes(cfg):
         s, o = bad[0]
         meta, gname = describe(h, s, o)
         isconst = any(gname in m.globals and m.globals[gname].const for m in mods)
+        why = h.explain(s, o)
         raise Violation("global-write:%s:%s" % (meta["function"], gname),
-                        "%s in %s (%s) may write %s global @%s: `%s`" % (meta["kind"], meta["function"], meta["tu"],
-                                                                         "CONSTANT" if isconst else "writable", gname, meta["instruction"]),
+                        short("%s in %s (%s) may write %s global @%s%s: `%s`" % (meta["kind"], meta["function"], meta["tu"],
+                                                                                 "CONSTANT" if isconst else "writable", gname,
+                                                                                 " [address flows: " + why + "]" if why else "", meta["instruction"])),
                         {"config": cfg, "writes": [dict(describe(h, s_, o_)[0], target=describe(h, s_, o_)[1]) for s_, o_ in bad[:20]]})
     bc = res["BadCallee"]
     if bc:
